@@ -482,7 +482,7 @@ def rule_predicates(F, R):
 
 
 # ---------------------------------------------------------------------------------------------- effects
-def rule_accumulate_only(F, R):
+def rule_accumulate_only(F, R, rule="R-C10-4"):
     n = 0
     for f in F.functions.values():
         if f.name != "do_predict" or not f.relfile.startswith("src/wlearner/") or f.is_lambda:
@@ -498,9 +498,11 @@ def rule_accumulate_only(F, R):
                     n += 1
                     a = assignment(site)
                     ok = a is not None and a[2] == "+="
-                    R.check(ok, "R-C10-4", "%s@%s" % (f.cls.split("::")[-1], g.loc(site)), g.loc(site), "prediction is added to the given outputs", "outputs are overwritten instead of accumulated: %s" % pp(site)[:70])
+                    R.check(ok, rule, "%s@%s" % (f.cls.split("::")[-1], g.loc(site)), g.loc(site), "prediction is added to the given outputs",
+                            "outputs are overwritten instead of accumulated: %s - the boosting model adds its learners' predictions to the bias in place, so this learner "
+                            "wipes out the bias and every earlier learner for the samples it acts on" % pp(site)[:70])
             # forwarding the outputs to a nested predict is fine (dtree) - checked where that predict is defined
-    R.floor("R-C10-4", n, 5, "writes to the outputs in do_predict")
+    R.floor(rule, n, 5, "writes to the outputs in do_predict")
 
 
 def rule_missing(F, R):
